@@ -421,6 +421,8 @@ def run(case):
                 out.ev("fault", fkind, n, region, "error", type(e).__name__)
                 continue
             diff = files.compare_read(kind, w, got)
+            if diff is None and kind == "bec2":
+                diff = _blocks_diff(case, w, got)
             if diff is None:
                 out.probes["damage-accepted-equal"] += 1
                 out.ev("fault", fkind, n, region, "equal")
@@ -442,6 +444,32 @@ def run(case):
     finally:
         env.restore_registry()
     return out
+
+
+def _blocks_diff(case, w, got):
+    """The authentication blocks are content of a BEC2 file too (C02 reads them back).  Compared narrowly, so
+    that nothing the format leaves unprotected by design is demanded: a customer-key or update block (AES
+    container with marker and CRC) for which the reader was given the decryptor and that still carries its
+    own tag must come back opened and with its own fields - a damaged container silently demoted to opaque
+    bytes is different content.  Not compared: blocks without a decryptor (opaque bytes no MAC covers), blocks
+    whose tag byte was damaged (an unknown tag is kept as opaque by design, C07) and ECC blocks (their selector
+    byte legitimately decides whether a supplied decryptor applies)."""
+    from props.c02 import _block_mismatch
+    bf = env.bec2file
+    blocks = list(got.auth_blocks.values())
+    specs = case.get("blocks") or []
+    if len(blocks) != len(specs):
+        return None
+    for i, (bspec, blk) in enumerate(zip(specs, blocks)):
+        if i not in w.decryptors or bspec["t"] not in ("cust", "upd", "update"):
+            continue
+        cls = bf.InitCustKeyAuthBlock if bspec["t"] == "cust" else bf.UpdateAuthBlock
+        if type(blk) is bf.UnknownAuthBlock and blk.tag != cls.TAG:
+            continue
+        m = _block_mismatch(bspec, blk, bf)
+        if m:
+            return "auth-blocks", "block %d, decryptor supplied: %s" % (i, m)
+    return None
 
 
 def _older_longer_file(case, name, fs):
